@@ -37,6 +37,10 @@ fn values(thorough: bool) -> Vec<Value> {
     let mut out = l.clone();
     out.push(json!([]));
     out.push(json!({}));
+    // longer than the 1024-byte chunks the line writer cuts a message into, with multi-byte
+    // characters across the chunk boundaries
+    out.push(json!("é".repeat(1300)));
+    out.push(json!({"value": "x".repeat(1023), "deleted": ["€".repeat(400)]}));
     for a in &l {
         out.push(json!([a]));
         for n in names {
@@ -155,6 +159,26 @@ fn server_messages(thorough: bool) -> Vec<SM> {
     out
 }
 
+/// A transport that takes at most `max` bytes per write call (a socket under back-pressure).
+struct ShortWriter {
+    out: Vec<u8>,
+    max: usize,
+}
+
+impl tokio::io::AsyncWrite for ShortWriter {
+    fn poll_write(mut self: std::pin::Pin<&mut Self>, _: &mut std::task::Context<'_>, buf: &[u8]) -> std::task::Poll<std::io::Result<usize>> {
+        let n = buf.len().min(self.max);
+        self.out.extend_from_slice(&buf[..n]);
+        std::task::Poll::Ready(Ok(n))
+    }
+    fn poll_flush(self: std::pin::Pin<&mut Self>, _: &mut std::task::Context<'_>) -> std::task::Poll<std::io::Result<()>> {
+        std::task::Poll::Ready(Ok(()))
+    }
+    fn poll_shutdown(self: std::pin::Pin<&mut Self>, _: &mut std::task::Context<'_>) -> std::task::Poll<std::io::Result<()>> {
+        std::task::Poll::Ready(Ok(()))
+    }
+}
+
 /// encode -> one line -> decode (both through `from_str` and through the real line reader)
 async fn line_roundtrip<T: serde::Serialize + serde::de::DeserializeOwned>(m: &T) -> Result<(String, T, T), String> {
     let a = serde_json::to_string(m).map_err(|e| format!("encode: {e}"))?;
@@ -169,6 +193,19 @@ async fn line_roundtrip<T: serde::Serialize + serde::de::DeserializeOwned>(m: &T
     write_line_and_flush(m, &mut buf, None, "test").await.map_err(|e| format!("write_line_and_flush refused the message: {e}"))?;
     if buf.iter().filter(|c| **c == b'\n').count() != 1 || buf.last() != Some(&b'\n') {
         return Err(format!("not exactly one line on the wire: {:?}", String::from_utf8_lossy(&buf)));
+    }
+    // the bytes on the wire are a function of the message alone: a transport that accepts only a few
+    // bytes per call (with and without a send timeout) must end up with the same line
+    for (max, timeout) in [(1usize, None), (7, Some(std::time::Duration::from_secs(5))), (100, None), (1023, None)] {
+        let mut w = ShortWriter { out: vec![], max };
+        write_line_and_flush(m, &mut w, timeout, "test").await.map_err(|e| format!("write_line_and_flush over a transport taking {max} bytes per call: {e}"))?;
+        if w.out != buf {
+            return Err(format!(
+                "over a transport taking {max} bytes per call the wire holds {:?} instead of {:?}",
+                String::from_utf8_lossy(&w.out).chars().take(120).collect::<String>(),
+                String::from_utf8_lossy(&buf).chars().take(120).collect::<String>()
+            ));
+        }
     }
     let direct: T = serde_json::from_str(&a).map_err(|e| format!("decode of {a}: {e}"))?;
     let mut lines = BufReader::new(&buf[..]).lines();
